@@ -475,11 +475,17 @@ def cond_part(ck, tier, scripts, expect):
                             "capture": "full"}
                 if c["mask"]:
                     base["sel"] = e["sel"]
+                if c["prop"] == "nonstat":
+                    ncase[sim + "-nonstat"] += 1
+                    base["propfield"] = {"split_x": e["split_x"], "a": [v / float(e["unit"]) for v in e["propa"]],
+                                         "b": [v / float(e["unit"]) for v in e["propb"]]}
                 scripts.append({"id": sid + ".f", "trace": True, "calls": [dict(base, gaus=False)]})
-                scripts.append({"id": sid + ".g", "calls": [dict(base, gaus=True)]})
+                if c["prop"] == "stat":     # the thresholds are known (0) for the stationary half/half proportions only
+                    scripts.append({"id": sid + ".g", "calls": [dict(base, gaus=True)]})
             expect[sid] = {"part": "case", "e": e}
     need = ["tgb-regular", "tgb-degenerate", "tgb-swapped", "simtub", "simtub-near", "simfft", "spde", "spdec", "simtub-nc",
-            "gibbs", "simpgs", "simbipgs", "gibbs-selection", "simpgs-selection", "simbipgs-selection"]
+            "gibbs", "simpgs", "simbipgs", "gibbs-selection", "simpgs-selection", "simbipgs-selection",
+            "simpgs-nonstat", "simbipgs-nonstat"]
     for k in need:
         if ncase[k] == 0:
             raise Broken("vacuous: no case of category " + k)
@@ -637,11 +643,38 @@ def judge_pgs(ck, sid, ex, obs, rules):
     c = e["c"]
     bi = c["sim"] == "simbipgs"
     nb = c["nbsimu"]
-    base = {"simulator": c["sim"], "layout_predicted": not e["layout_ok"], "selection": bool(c["mask"])}
+    base = {"simulator": c["sim"], "layout_predicted": not e["layout_ok"], "selection": bool(c["mask"]),
+            "proportions": c["prop"]}
     replay = {"selection": e["sel"], "call": "%s(dbin, dbout 5x5, ruleprop, models cub/exp/sph/mat, NeighUnique, nbsimu=%d, seed=%d, nbtuba=20, nburn=5, niter=20)" %
                       (c["sim"], nb, c["seed"]),
               "rule": c["rule"], "rule2": c.get("rule2"), "props": e["props"], "data_xy": e["data"], "facies": c["fac"],
               "facies2": c.get("fac2")}
+    if c["prop"] == "nonstat":
+        # proportions varying in space: the thresholds vary with them; the property still demands the observed
+        # facies at every datum, for both variables of simbipgs
+        replay["proportion_grid"] = {"split_x": e["split_x"], "x<=split": e["propa"], "beyond": e["propb"], "unit": e["unit"]}
+        of = obs[sid + ".f"]
+        if "crash" in of:
+            ck.disagree(dict(base, kind="crash", signal=of["crash"]), replay)
+            return
+        cf = of["calls"][0]
+        npgs = 2 if bi else 1
+        if cf["err"] or cf["ncol"] != npgs * nb:
+            ck.disagree(dict(base, kind="call-failed", ncol_f=cf["ncol"]), replay)
+            return
+        F = columns(cf)
+        facs = [c["fac"]] + ([c["fac2"]] if bi else [])
+        for ipgs in range(npgs):
+            for isimu in range(nb):
+                fcol = F[isimu + nb * ipgs]
+                for i, (x, y) in enumerate(e["data"]):
+                    if e["sel"][i] and fcol[x + 5 * y] != facs[ipgs][i]:
+                        ck.disagree(dict(base, kind="facies-at-data"),
+                                    dict(replay, pgs=ipgs + 1, rank=isimu + 1, datum=i + 1, observed_facies=facs[ipgs][i],
+                                         simulated_facies=fcol[x + 5 * y]))
+                        return
+        ck.add("pgs_nonstationary_data_checked", npgs * nb * len(e["data"]))
+        return
     of, og = obs[sid + ".f"], obs[sid + ".g"]
     for o in (of, og):
         if "crash" in o:
